@@ -352,6 +352,36 @@ func generate() {
 		emit(opGet("Fresh1"), true)
 	}
 
+	// ---- (7) a long etc/reserved.id (several buffer fills of the loader) -----------------------------------------
+	{
+		var long []string
+		for k := 0; k < 600; k++ {
+			long = append(long, fmt.Sprintf("rsv%03dname", k))
+		}
+		emit(resetLine(long, []initAcct{{slot: 0, id: id13("Plain1"), kind: 'g', pw: []byte("pw1")}}), false)
+		picks := []int{0, 1, 2, 5, 50, 99, 100, 101, 299, 300, 450, 598, 599}
+		for n := 0; n < 6; n++ {
+			picks = append(picks, r.Intn(600))
+		}
+		for j, k := range picks {
+			id := long[k]
+			switch j % 3 {
+			case 1:
+				id = strings.ToUpper(id)
+			case 2:
+				id = strings.ToUpper(id[:1]) + id[1:]
+			}
+			emit(opReg(id, []byte("pw1"), "r@s"), true)
+			if j%4 == 0 {
+				emit(opExists(id), true)
+				emit(opLogin(id, []byte("pw1")), true)
+			}
+		}
+		emit(opReg("rsv600name", []byte("pw1"), "-"), true) // not on the list
+		emit(opReg("rsv000nam", []byte("pw1"), "-"), true)  // a prefix of an entry is not reserved
+		emit(opLogin("plain1", []byte("pw1")), true)
+	}
+
 	// ---- (6) concurrent requests --------------------------------------------------------------------------
 	concBlocks(r, thorough)
 
